@@ -399,9 +399,8 @@ theorem crosstabNumpy3d_fixed {ν ρ : Type} [DecidableEq γ] (zones : Nat → X
       = some { zone := wantedZones zones cells zoneIds
                cats := selectIds (layers.map Prod.fst) catIds
                cols := (selectIds (layers.map Prod.fst) catIds).map (fun c =>
-                  match layers.find? (fun l => l.1 == c) with
-                  | some l => (wantedZones zones cells zoneIds).map (fun z => func (zoneCells zones l.2 valid perm z))
-                  | none => []) } := by
+                  optCol (layers.find? (fun l => l.1 == c)) (fun l =>
+                    (wantedZones zones cells zoneIds).map (fun z => func (zoneCells zones l.2 valid perm z)))) } := by
   have hu := uniqueZones_covers zones cells
   have hl := zoneLabels_sorted (uniqueZones zones cells) zoneIds
   unfold crosstabNumpy3d
@@ -415,7 +414,7 @@ theorem crosstabNumpy3d_fixed {ν ρ : Type} [DecidableEq γ] (zones : Nat → X
   cases hfind : layers.find? (fun l => l.1 == c) with
   | none => rfl
   | some l =>
-    simp only
+    simp only [optCol]
     rw [layerCol_fixed zones l.2 valid func cells perm _ _ hp hu, hl.2]
 
 /-! ### percentages -/
